@@ -33,6 +33,7 @@
    stay theorem-only; a change of preparePeerConnection that, say, forgot pc.Close() on those branches would not be seen
    by the correspondence. *)
 From Coq Require Import List Arith Bool.
+From Snow Require Import Model.BrokerExchange Proofs.BrokerExchangeProofs.
 From Snow Require Import Model.Peers Model.Connect Model.CloseConn Model.PeerLife Proofs.PeersProofs Proofs.PeersRetryProofs Proofs.ConnectProofs Proofs.CloseConnProofs Proofs.PeerLifeProofs.
 Import ListNotations.
 
@@ -386,3 +387,35 @@ Example C15_ex_end_during_teardown : exists s, lrun V1 FlagFirst (linit 2) trace
   nth_error (ends (lp s)) 0 = Some E_Done /\ next_peer (lp s) = 2 /\
   begun s 0 = true /\ torn s 0 = false /\ begun s 1 = true /\ torn s 1 = true.
 Proof. exact end_life_example. Qed.
+
+(* ---- the rendezvous attempt in flight is itself bounded (Model/BrokerExchange.v).  End / SnowflakeConn.Close wait "at most
+   for one rendezvous attempt already in flight": the termination theorems above are stated for a Catch that returns; for
+   the broker exchange inside it that is provided by the code's own transport (createBrokerTransport: ResponseHeaderTimeout
+   15 s), whatever the broker does - including accepting the request and never answering.  Tied: Run/CloseconnRun.v takes
+   the outcome of the `silent` scenarios from negotiate_outcome code_transport B_Silent; the Go driver runs them through
+   NewSnowflakeClient -> NewBrokerChannel -> createBrokerTransport against a broker that reads the request and stays silent
+   (key rendezvous-attempt-unbounded). *)
+Theorem C15_rendezvous_exchange_bounded : forall b, exists d ok, exchange_end code_transport b = Some (d, ok) /\ d <= 15.
+Proof. exact code_exchange_bounded. Qed.
+
+Theorem C15_rendezvous_not_in_flight_after_limit : forall b n, 15 <= n -> in_flight code_transport b n = false.
+Proof. exact code_not_in_flight_after. Qed.
+
+Theorem C15_negotiate_returns : forall b, exists ok, negotiate_outcome code_transport b = Some ok.
+Proof. exact code_negotiate_returns. Qed.
+
+Theorem C15_answer_in_time_kept : forall d ok, d <= 15 -> exchange_end code_transport (B_Answers d ok) = Some (d, ok).
+Proof. exact code_answer_in_time_kept. Qed.
+
+(* non-vacuity: the silent broker's attempt is in flight up to the limit and fails exactly there *)
+Example C15_ex_silent_broker : in_flight code_transport B_Silent 14 = true /\ exchange_end code_transport B_Silent = Some (15, false) /\
+  exchange_end code_transport (B_Answers 15 true) = Some (15, true) /\ exchange_end code_transport (B_Answers 16 true) = Some (15, false).
+Proof. repeat split; reflexivity. Qed.
+
+(* a transport without the limit (the 15 s put on another field) is refuted: a silent broker holds the attempt for ever,
+   and only a silent one does *)
+Theorem C15_unlimited_transport_refuted : (forall n, in_flight (mkXT None) B_Silent n = true) /\ negotiate_outcome (mkXT None) B_Silent = None.
+Proof. split; [exact unlimited_silent_for_ever | exact unlimited_silent_never_returns]. Qed.
+
+Theorem C15_unlimited_only_silence_hangs : forall b, b <> B_Silent -> exists ok, negotiate_outcome (mkXT None) b = Some ok.
+Proof. exact unlimited_others_return. Qed.
